@@ -7,7 +7,7 @@ From Coq Require Import Reals List Bool ZArith.
 From PyrexLib Require Import RealPrims.
 From PyrexModel Require Import GeneratorModel.
 From PyrexGen Require Import Gen_generation.
-From PyrexProofs Require Import C13_proofs C13_closed_proofs.
+From PyrexProofs Require Import C13_proofs C13_closed_proofs C13_cyl_proofs.
 Import ListNotations.
 Open Scope R_scope.
 
@@ -131,16 +131,31 @@ Proof.
 Qed.
 Print Assumptions boundary_vertex_is_exit_or_entry.
 
-(* cylinder, side wall, generic branch d_x <> 0: both candidate points lie on the circle and on the
-   line of flight, in order of x *)
-Theorem exit_points_cyl_side_partial : forall dr v d,
-  vx d <> 0 ->
-  0 <= - ((vy v - vy d / vx d * vx v) ^ 2) + (1 + (vy d / vx d) ^ 2) * dr ^ 2 ->
-  let p0 := fst (cyl_side_points dr v d) in let p1 := snd (cyl_side_points dr v d) in
-  vx p0 ^ 2 + vy p0 ^ 2 = dr ^ 2 /\ vx p1 ^ 2 + vy p1 ^ 2 = dr ^ 2 /\
-  on_flight_line v d p0 /\ on_flight_line v d p1 /\ vx p0 <= vx p1.
-Proof. exact cyl_side_generic_lemma. Qed.
-Print Assumptions exit_points_cyl_side_partial.
+(* cylinder (the whole routine: side wall, both caps, horizontal, vertical and every other non-zero
+   direction): for every vertex of the CLOSED cylinder get_exit_points returns two points on the
+   boundary (x^2+y^2 = dr^2 within the height range, or z = 0 / z = -dz within the radius), on the line
+   of flight, the entry behind (s <= 0) and the exit ahead (t >= 0) of the vertex ... *)
+Theorem exit_points_cyl : forall dr dz v d,
+  cyl_closed dr dz v -> (vx d <> 0 \/ vy d <> 0 \/ vz d <> 0) ->
+  exists en ex, cyl_exit_points dr dz v d = Some (en, ex) /\
+    exists s t, s <= 0 <= t /\ en = line_point v d s /\ ex = line_point v d t /\
+                cyl_on_boundary dr dz en /\ cyl_on_boundary dr dz ex.
+Proof. exact exit_points_cyl_closed_lemma. Qed.
+Print Assumptions exit_points_cyl.
+
+(* ... strictly between them when the vertex is strictly inside *)
+Theorem exit_points_cyl_strict : forall dr dz v d,
+  cyl_strictly_inside dr dz v -> (vx d <> 0 \/ vy d <> 0 \/ vz d <> 0) ->
+  exists en ex, cyl_exit_points dr dz v d = Some (en, ex) /\
+    exists s t, s < 0 < t /\ en = line_point v d s /\ ex = line_point v d t /\
+                cyl_on_boundary dr dz en /\ cyl_on_boundary dr dz ex.
+Proof.
+  intros dr dz v d Hin Hd.
+  assert (Hc : cyl_closed dr dz v) by (destruct Hin as [A B]; split; Lra.lra).
+  destruct (exit_points_cyl_closed_lemma dr dz v d Hc Hd) as (en & ex & E & R).
+  exists en, ex. split; [assumption|]. apply (exit_points_cyl_strict_lemma dr dz v d en ex Hin R).
+Qed.
+Print Assumptions exit_points_cyl_strict.
 
 (* --- weights --------------------------------------------------------------------------------- *)
 Theorem weights_spec : forall p en ex t l_int,
